@@ -67,10 +67,15 @@ theorem clockInv_step : StepInvariant (fun _ => True) ClockInv where
       incr := fun _ _ _ _ s c h => withNewCas_clockInv s c _ h
       wcas := fun _ _ _ _ _ s c h => withNewCas_clockInv s c _ h
       remove := fun _ _ s c h => withNewCas_clockInv s c _ h
-      touch := fun _ _ s c h => withNewCas_clockInv s c _ h
       wwx := fun _ _ _ _ _ _ _ s c h => withNewCas_clockInv s c _ h
       delx := fun _ _ s c h => withNewCas_clockInv s c _ h
       dsp := fun _ _ s c h => withNewCas_clockInv s c _ h }
+  touchOp := fun s c k exp h => by
+    unfold opTouch armOnSuccess
+    have h' := withNewCas_clockInv s c (touchFn k exp) h
+    split
+    · exact ClockInv.frame rfl rfl (Nat.le_refl _) rfl h'
+    · exact h'
   wmeta := fun s c k old new exp xs body j d _ h => by
     unfold opWriteWithMeta
     split
